@@ -234,12 +234,17 @@ def _stage(a: dict, n: int, fn, *args):
         return False, None
 
 
+def lex_str(chars) -> str:
+    """Character sequence of the specification -> text ("U+xxxx" tokens are characters TLA+ strings cannot hold)."""
+    return ''.join(chr(int(ch[2:], 16)) if len(ch) > 2 and ch.startswith('U+') else ch for ch in chars)
+
+
 # ------------------------------------------------------------------------------------------ concretisation
 def drive(real: Real, item: dict, tg: str) -> dict:
     """One abstract case on one target of the real code -> actual result record."""
     c = item['c']
     k = c['k']
-    lexical = ''.join(item['lex'])
+    lexical = lex_str(item['lex'])
     if k == 'ts1':
         a = {'st': 'ok', 'xml': []}
         ok, p = _stage(a, 1, real.to_py, tg, lexical)
@@ -488,7 +493,7 @@ def _class_of(real: Real, rec: dict) -> str:
     k = c['k']
     if k in ('dpy', 'dxml'):
         # Decimal(lexical) keeps the exponent of the lexical form; str() of the python value decides the code path
-        d = Decimal(''.join(rec['lex'])) if k == 'dxml' else Decimal((1 if c['neg'] else 0, tuple(c['co']), c['ex']))
+        d = Decimal(lex_str(rec['lex'])) if k == 'dxml' else Decimal((1 if c['neg'] else 0, tuple(c['co']), c['ex']))
         s = str(d)
         return 'str_has_negative_exponent' if 'E-' in s else 'str_has_positive_exponent' if 'E+' in s else 'str_plain'
     if k == 'lex':
@@ -519,7 +524,7 @@ PART_OF = {'ts1': 'timestamp', 'ts2': 'timestamp', 'dpy': 'decimal', 'dxml': 'de
 
 def _call_text(rec: dict) -> str:
     c, tg = rec['c'], rec['tg']
-    lexical = ''.join(rec['lex'])
+    lexical = lex_str(rec['lex'])
     k = c['k']
     if k in ('ts1', 'dxml', 'durxml', 'dtxml'):
         return f'{tg}: to_xml(to_py({lexical!r}))'
@@ -753,7 +758,7 @@ def report(run, real: Real, records: list[dict], failing: dict[int, str], keep_r
             what += f' (specification expects: {r.get("x")})'
         key = f'{descr["part"]}/{clause}/{descr["class"]}'
         stats[key] = stats.get(key, 0) + 1
-        run.violation(descr, what, None if not keep_replay else {'case': c, 'lexical': ''.join(r['lex']), 'python_input': r['py_in'],
+        run.violation(descr, what, None if not keep_replay else {'case': c, 'lexical': lex_str(r['lex']), 'python_input': r['py_in'],
                                     'target': r['tg'], 'actual': r['a'], 'clause': clause,
                                     'how': 'drive(Real(), {"c": case, "lex": list(lexical), "x": "-"}, target) in '
                                            'verif/checks/c18.py, judged by specs/ScalarsTrace.tla'})
@@ -780,7 +785,7 @@ def check(run, replay_path=None):
     per_kind: dict[str, int] = {}
     for r in records:
         per_kind[r['c']['k']] = per_kind.get(r['c']['k'], 0) + 1
-        run.distinct_traces.add((r['c']['k'], r['tg'], ''.join(r['lex']) or json.dumps(r['c'], sort_keys=True)))
+        run.distinct_traces.add((r['c']['k'], r['tg'], lex_str(r['lex']) or json.dumps(r['c'], sort_keys=True)))
     run.note('records_per_kind', per_kind)
     for k in ('ts1', 'dpy', 'lex'):
         r = next(x for x in records if x['c']['k'] == k)
